@@ -22,6 +22,7 @@ const (
 	gGarbled  = "https://r9.example/u/garbled"
 	gUnknown  = "https://r9.example/u/unknown-type"
 	gShape    = "https://r1.example/c/shape"
+	gActorV   = "https://r3.example/u/variant"
 	pubAS     = "as:Public"
 	daveOther = "https://r2.example/u/dave/remote-inbox" // what Dave's remote document says
 )
@@ -33,6 +34,7 @@ type gnode struct {
 	members []string // collection members
 	ordered bool
 	page    bool
+	doc     M      // actor: the whole remote document (actor document variants family); nil = a plain Person
 	typ     string // explicit document type (collection shapes family); "" = derived from ordered / page
 	shape   int    // 0: member list as given; 1: the items member is absent altogether; 2: an empty array
 }
@@ -64,6 +66,9 @@ func (g graph) install(a *ap.App) {
 		case "actor":
 			d := person(id)
 			d["inbox"] = n.inbox
+			if n.doc != nil {
+				d = n.doc
+			}
 			a.PutRemote(id, d)
 			if n.stored != "" {
 				a.StoredInbox[id] = true
@@ -148,6 +153,47 @@ func (g graph) expected(entries []string, limit int, sender string) (inboxes map
 	return
 }
 
+// c02actorDocs: the remote document of the actor gActorV in the shapes real servers publish. In every
+// one of them the actor's inbox is gActorV + "/inbox".
+func c02actorDocs() []struct {
+	name string
+	doc  M
+} {
+	id, in := gActorV, gActorV+"/inbox"
+	base := func(typ interface{}) M {
+		d := person(id)
+		d["type"] = typ
+		return d
+	}
+	with := func(d M, kv ...interface{}) M {
+		for i := 0; i+1 < len(kv); i += 2 {
+			d[kv[i].(string)] = kv[i+1]
+		}
+		return d
+	}
+	sec := L{AS, "https://w3id.org/security/v1"}
+	return []struct {
+		name string
+		doc  M
+	}{
+		{"Service", base("Service")}, {"Group", base("Group")}, {"Organization", base("Organization")}, {"Application", base("Application")},
+		{"two-types-known-first", base(L{"Person", "https://ext.example/ns#Bot"})},
+		{"two-types-unknown-first", base(L{"https://ext.example/ns#Bot", "Person"})},
+		{"inbox-embedded-collection", with(base("Person"), "inbox", Emb("OrderedCollection", in, "totalItems", 3))},
+		{"inbox-embedded-page", with(base("Person"), "inbox", Emb("OrderedCollectionPage", in))},
+		{"shared-inbox-endpoint", with(base("Person"), "endpoints", M{"sharedInbox": "https://r3.example/shared-inbox-must-not-be-used"})},
+		{"public-key-and-security-context", with(base("Person"), "@context", sec, "publicKey", M{"id": id + "#main-key", "owner": id, "publicKeyPem": "-----BEGIN PUBLIC KEY-----"})},
+		{"mastodon-like", with(base("Person"), "@context", L{AS, "https://w3id.org/security/v1", M{"toot": "http://joinmastodon.org/ns#", "featured": "toot:featured", "discoverable": "toot:discoverable"}},
+			"discoverable", true, "featured", id+"/featured", "manuallyApprovesFollowers", false, "url", "https://r3.example/@variant", "icon", Emb("Image", "", "url", "https://r3.example/a.png"),
+			"attachment", L{M{"type": "PropertyValue", "name": "site", "value": "x"}}, "tag", L{})},
+		{"unknown-members", with(base("Person"), "zzUnknown", M{"a": L{1.0, nil}}, "inboxx", "https://r3.example/decoy-inbox")},
+		{"aliased-context", func() M {
+			d := M{"@context": M{"https://www.w3.org/ns/activitystreams": "as"}, "id": id, "type": "as:Person", "as:inbox": in, "as:outbox": id + "/outbox", "as:preferredUsername": "variant"}
+			return d
+		}()},
+	}
+}
+
 // ---- enumeration -------------------------------------------------------------------------------
 
 type c02entry struct {
@@ -200,6 +246,7 @@ var c02spellings = []c02entry{{id: Carol, form: 1}, {id: Carol, form: 2}, {id: D
 var addrProps = []string{"to", "bto", "cc", "bcc", "audience"}
 
 type c02case struct {
+	actorDoc     int    // actor document variants family: 1-based index into c02actorDocs (0 = none)
 	shapeTyp     string // collection shapes family: document type of the node gShape
 	shape        int
 	entries      []c02entry
@@ -220,6 +267,9 @@ func (c c02case) String() string {
 		k = append(k, shortID(m))
 	}
 	ss := ""
+	if c.actorDoc > 0 {
+		ss = " V=" + c02actorDocs()[c.actorDoc-1].name
+	}
 	if c.shapeTyp != "" {
 		ss = fmt.Sprintf(" S=%s/%s", c.shapeTyp, []string{"one-member", "no-items-member", "empty-items", "two-members"}[c.shape])
 	}
@@ -383,6 +433,16 @@ func C02(tier string) int {
 			}
 		}
 	}
+	// actor documents as remote servers really publish them
+	for di := range c02actorDocs() {
+		for _, lim := range limits[:2] {
+			V := c02entry{id: gActorV}
+			for _, es := range [][]c02entry{{V}, {V, {id: Carol}}, {{id: Dave}, V}} {
+				cases = append(cases, c02case{actorDoc: di + 1, entries: es, placement: 1, k1: []string{Erin}, limit: lim, entry: "Send"})
+			}
+			cases = append(cases, c02case{actorDoc: di + 1, entries: []c02entry{{id: gK1}}, k1: []string{gActorV, Erin}, limit: lim, entry: "PostOutbox"})
+		}
+	}
 	// reference spellings: an addressed entry written as an embedded Mention (href only) or as an embedded
 	// Link carrying both id and a decoy href, alone and next to each entry of the main alphabet
 	for _, sp := range c02spellings {
@@ -395,7 +455,7 @@ func C02(tier string) int {
 		}
 		cases = append(cases, c02case{entries: []c02entry{sp, {id: Erin}}, placement: 1, k1: []string{Carol, gK2}, limit: 2, entry: "PostOutbox"})
 	}
-	res.Rule = fmt.Sprintf("federation graphs over {dereferencable actor, embedded actor, actor with stored inbox (remote inbox differing), actor with stored = remote inbox, missing, garbled, unknown-type, Collection K1 with every member sequence of length <= %d over 8 nodes, OrderedCollection K2 = [actor, K1], page P1 = [actor, P1, K2] (cycles), Public in both IRI spellings, the sender (named directly or as a member; with and without an inbox of its own stored by the application)}; plus every addressing sequence of length 3-4 over {plain actor, two actors with an application-stored inbox, collection, unreachable actor, sender}; plus a collection-shape family (each of Collection / OrderedCollection / CollectionPage / OrderedCollectionPage with its items member absent (totalItems + first only), empty, one or two members; addressed directly, next to actors, or reached through K1) and a reference-spelling family (an entry written as an embedded Mention with href only, or as an embedded Link with id and a decoy href, alone and paired with every alphabet entry); every ordered sequence of <= %d addressed entries over that 15-entry alphabet, placed in 'to' only / spread over to,bto,cc,bcc,audience / reversed; depth limit %v; entry points Send and client POST; %d runs; plus all two-delivery histories through one actor instance over 2 senders x 5 addressees (first) x 25 addressee pairs (second); oracle: an independent recursive function over the graph description gives the expected inbox set and the IRIs that may be dereferenced; non-trivial = runs in which something was dereferenced or delivered, distinct by (entries, placement, K1, limit)", len(k1s[len(k1s)-1]), maxEntries, limits, len(cases))
+	res.Rule = fmt.Sprintf("federation graphs over {dereferencable actor, embedded actor, actor with stored inbox (remote inbox differing), actor with stored = remote inbox, missing, garbled, unknown-type, Collection K1 with every member sequence of length <= %d over 8 nodes, OrderedCollection K2 = [actor, K1], page P1 = [actor, P1, K2] (cycles), Public in both IRI spellings, the sender (named directly or as a member; with and without an inbox of its own stored by the application)}; plus every addressing sequence of length 3-4 over {plain actor, two actors with an application-stored inbox, collection, unreachable actor, sender}; plus an actor-document family (the remote actor published as Service / Group / Organization / Application, with two types (known or unknown first), with its inbox spelled as an embedded OrderedCollection / page, with a sharedInbox endpoint, with a public key under the security context, Mastodon-like with extension terms, with unknown and near-miss members, under an aliased context); plus a collection-shape family (each of Collection / OrderedCollection / CollectionPage / OrderedCollectionPage with its items member absent (totalItems + first only), empty, one or two members; addressed directly, next to actors, or reached through K1) and a reference-spelling family (an entry written as an embedded Mention with href only, or as an embedded Link with id and a decoy href, alone and paired with every alphabet entry); every ordered sequence of <= %d addressed entries over that 15-entry alphabet, placed in 'to' only / spread over to,bto,cc,bcc,audience / reversed; depth limit %v; entry points Send and client POST; %d runs; plus all two-delivery histories through one actor instance over 2 senders x 5 addressees (first) x 25 addressee pairs (second); oracle: an independent recursive function over the graph description gives the expected inbox set and the IRIs that may be dereferenced; non-trivial = runs in which something was dereferenced or delivered, distinct by (entries, placement, K1, limit)", len(k1s[len(k1s)-1]), maxEntries, limits, len(cases))
 	res.Assumptions = []string{"order of recipients and how often one IRI is dereferenced are not asserted",
 		"documents that decode to a known non-actor type or to an actor without inbox are outside the alphabet (the statement is silent; C11 covers crashes)",
 		"the stored inbox is consulted for directly addressed actors only, as the code does; collection members with a stored inbox have stored == remote inbox"}
@@ -416,6 +476,9 @@ func C02(tier string) int {
 		for _, c := range cases[lo:hi] {
 			c := c
 			g := baseGraph(c.k1)
+			if c.actorDoc > 0 {
+				g[gActorV] = &gnode{kind: "actor", inbox: gActorV + "/inbox", doc: c02actorDocs()[c.actorDoc-1].doc}
+			}
 			if c.shapeTyp != "" {
 				n := &gnode{kind: "collection", typ: c.shapeTyp}
 				switch c.shape {
